@@ -94,6 +94,37 @@ pub fn harness_error(msg: &str) -> ! {
     std::process::exit(2)
 }
 
+/// Second opinion on a determinism mismatch. Two executions of one case *in this process*
+/// differed; that is a defect of the simulator only if two executions in *fresh processes* differ
+/// too. Code under test may legitimately keep state across calls (a process-wide memo of
+/// outcomes keyed by the complete configuration — rewrite C16-p5a-3): the second execution then
+/// takes another path through the code, with another event log, although every answer is the same
+/// (answers are judged by the oracles, not here). Replay files are always run in a fresh process.
+/// `args`: arguments of a `verif child ...` command that prints the fingerprint of the case.
+/// Ok(true): the two fresh processes agree.
+pub fn fresh_processes_agree(args: &[String]) -> Result<bool, String> {
+    let exe = std::env::current_exe().map_err(|e| e.to_string())?;
+    let mut outs = Vec::new();
+    for _ in 0..2 {
+        let o = std::process::Command::new(&exe).args(args).stderr(std::process::Stdio::null()).output().map_err(|e| e.to_string())?;
+        if !o.status.success() {
+            return Err(format!("child {:?} ended with {:?}", args, o.status));
+        }
+        outs.push(o.stdout);
+    }
+    Ok(!outs[0].is_empty() && outs[0] == outs[1])
+}
+
+static RECHECK_FILE_NO: std::sync::atomic::AtomicU64 = std::sync::atomic::AtomicU64::new(0);
+
+/// A scratch file for handing a case to a child process (removed by the caller).
+pub fn recheck_file(body: &str) -> std::path::PathBuf {
+    let n = RECHECK_FILE_NO.fetch_add(1, std::sync::atomic::Ordering::SeqCst);
+    let p = std::env::temp_dir().join(format!("verif-recheck-{}-{}.json", std::process::id(), n));
+    let _ = std::fs::write(&p, body);
+    p
+}
+
 pub fn verif_dir() -> std::path::PathBuf {
     std::env::var("VERIF_DIR").map(Into::into).unwrap_or_else(|_| "/verif".into())
 }
